@@ -45,23 +45,41 @@ def run_impl(ctx, exe, histories, prefix_of=None, timeout=1800):
     return res, lines, outl
 
 
-def run_model(ctx, histories, prefix_of=None, timeout=3600):
+def run_model(ctx, histories, prefix_of=None, timeout=3600, workers=16):
+    """the extracted model on the same histories; sharded over processes (each history starts with `new`)"""
     if not getattr(ctx, "model", None):
         return None
-    lines = script(histories, prefix_of)
-    rc, out = ctx.run_exe(ctx.model, input_text="\n".join(lines) + "\n", timeout=timeout)
-    outl = out.strip("\n").split("\n")
-    if rc != 0 or len(outl) != len(lines):
-        ctx.tie_broken("decoder-model-run", f"model driver exit {rc}, {len(outl)} lines for {len(lines)} commands; tail: {out[-300:]}")
-        return None
-    res, k = [], 0
-    for i, h in enumerate(histories):
-        k += 1
-        npre = len(prefix_of[i]) if prefix_of and prefix_of[i] else 0
-        k += npre
-        res.append([fdgen.parse_result(outl[k + j]) for j in range(len(h))])
-        k += len(h)
-    return res
+    import concurrent.futures as cf
+    n = len(histories)
+    nshards = max(1, min(workers, n // 8 or 1))
+    bounds = [(k * n // nshards, (k + 1) * n // nshards) for k in range(nshards)]
+
+    def one(b):
+        lo, hi = b
+        pre = prefix_of[lo:hi] if prefix_of else None
+        lines = script(histories[lo:hi], pre)
+        rc, out = ctx.run_exe(ctx.model, input_text="\n".join(lines) + "\n", timeout=timeout)
+        outl = out.strip("\n").split("\n")
+        if rc != 0 or len(outl) != len(lines):
+            return ("err", f"model driver exit {rc}, {len(outl)} lines for {len(lines)} commands; tail: {out[-300:]}")
+        res, k = [], 0
+        for i, h in enumerate(histories[lo:hi]):
+            k += 1
+            npre = len(pre[i]) if pre and pre[i] else 0
+            k += npre
+            res.append([fdgen.parse_result(outl[k + j]) for j in range(len(h))])
+            k += len(h)
+        return ("ok", res)
+
+    with cf.ThreadPoolExecutor(max_workers=nshards) as ex:
+        parts = list(ex.map(one, bounds))
+    out = []
+    for tag, val in parts:
+        if tag == "err":
+            ctx.tie_broken("decoder-model-run", val)
+            return None
+        out.extend(val)
+    return out
 
 
 def compare(ctx, name, histories, impl, model):
